@@ -128,3 +128,12 @@ impl RunningNode {
         &self.rewards_address
     }
 }
+
+#[cfg(feature = "verif-hooks")]
+impl RunningNode {
+    /// Verification hook: the running node's own `Network` handle, so that a harness observing a
+    /// real running node can read its local records and trigger its periodic duties.
+    pub fn verif_network(&self) -> &Network {
+        &self.network
+    }
+}
